@@ -291,7 +291,7 @@ def oracle_runs(ctx, scale):
         import wannierberri.calculators.tabulate as tb
     Ef = np.linspace(-0.7, 0.9, 4)
     om = np.linspace(0.2, 1.6, 3)
-    nsys = ctx.n(1, 3) * (1 if scale == 1 else 2)
+    nsys = ctx.n(1, 2) * (1 if scale == 1 else 2)
     for isys in range(nsys):
         rs = np.random.RandomState(rng.getrandbits(31))
         lat = rng.choice([np.diag([1.0, 1.25, 1.5]), np.array([[1.0, 0.2, 0], [-0.1, 1.3, 0.3], [0.2, 0, 1.1]]),
@@ -308,16 +308,18 @@ def oracle_runs(ctx, scale):
         if ctx.tier == "quick":
             cheap = [n for n in names if n not in EXPENSIVE]
             exp = [n for n in names if n in EXPENSIVE]
-            names = cheap + rng.sample(exp, min(1, len(exp)))
+            # quick tier: a random half of the cheap calculators + one expensive one (every seed another sample;
+            # the thorough tier runs all of them)
+            names = sorted(rng.sample(cheap, min(24, len(cheap)))) + rng.sample(exp, min(1, len(exp)))
+            ctx.note(f"quick tier sample of calculators: {names}")
         N = [rng.choice([4, 6]) for _ in range(3)]
-        if ctx.tier == "quick":
-            N[rng.randrange(3)] = 4
-            if N.count(6) > 1:
-                N[N.index(6)] = 4
+        N[rng.randrange(3)] = 4
+        if ctx.tier == "quick" and N.count(6) > 1:
+            N[N.index(6)] = 4
         facs = [factorisations(n) for n in N]
         ref = ([n for n in N], [1, 1, 1])
         others = []
-        for _ in range(ctx.n(2, 4)):
+        for _ in range(ctx.n(2, 3)):
             for _try in range(20):
                 c = [rng.choice(f) for f in facs]
                 div, fft = [x[0] for x in c], [x[1] for x in c]
@@ -328,8 +330,8 @@ def oracle_runs(ctx, scale):
             calcs = {}
             for n in names:
                 mk, is_static, is_tab = ok[n]
-                if tetra and not is_static:
-                    continue
+                if tetra and (not is_static or n in EXPENSIVE):
+                    continue     # tetra only applies to static calculators; the expensive ones are run without it only
                 calcs[n] = mk(tetra=tetra)
             tabs = {n.split(".")[1]: calcs.pop(n) for n in list(calcs) if ok[n][2]}
             if tabs:
